@@ -73,9 +73,27 @@ def file_task(c):
             'start': c['start'], 'step': c['step'], 'count_jobs': c.get('count_jobs')}
 
 
+def ints_table(c):
+    """Python's int() on the frequency cells that contain non-ASCII characters (Python-supplied, like the
+    str.lower tables): [[code points, value or None]]"""
+    tab = []
+    for row in c.get('rows', []):
+        f = row[2] if len(row) > 2 else None
+        if isinstance(f, str) and any(ord(ch) > 127 for ch in f):
+            try:
+                v = int(f)
+            except ValueError:
+                v = None
+            tab.append([T.cps(f), v])
+    return tab
+
+
 def file_request(c):
     req = {'op': 'text_parse', 'content': T.cps(content_of(c)), 'start': c['start'], 'step': c['step']}
-    if c.get('count_jobs') and c['compression'] == 'gzip':
+    tab = ints_table(c)
+    if tab:
+        req['ints'] = tab
+    if c.get('count_jobs') is not None and c['compression'] == 'gzip':
         req['count_jobs'] = c['count_jobs']
     return req
 
@@ -263,6 +281,9 @@ def gen_rt2(r, n_cases):
 
 
 BAD_FREQ = ['x', '', '1.0', '2a', 'one']
+# spellings Python's int() accepts or rejects beyond [0-9]+ (model: Text.pyInt; a negative count means no copy)
+INT_LITERALS = ['-1', '-0', '+2', ' 1 ', '1_0', '007', '\u20035\x0c', '\t3', '1__0', '_1', '1_', '\x1c5', '+', '-', '1 0',
+                '\uff12', '\u0663', '1\uff10']
 
 
 def gen_file(r, n_cases):
@@ -279,9 +300,11 @@ def gen_file(r, n_cases):
         if r.random() < 0.15 and rows:
             clean = False
             k = r.randrange(len(rows))
-            what = r.choice(['badfreq', 'onecol', 'fourcol'])
+            what = r.choice(['badfreq', 'onecol', 'fourcol', 'literal', 'literal'])
             if what == 'badfreq':
                 rows[k][2] = r.choice(BAD_FREQ)
+            elif what == 'literal':
+                rows[k][2] = r.choice(INT_LITERALS)
             elif what == 'onecol':
                 rows[k] = [rows[k][0], [], T.ONECOL]    # a line without any TAB
             else:
@@ -294,6 +317,12 @@ def gen_file(r, n_cases):
              'count_jobs': r.choice([1, 2, 4, 7]), 'clean': clean and eol == '\n'}
         if r.random() < 0.4:
             c['start'], c['step'] = r.choice([0, 1, 2, 5]), r.choice([1, 2, 3, 4])
+        if r.random() < 0.04:
+            c['step'] = 0                     # islice raises ValueError (C07.step_zero_raises)
+            c['clean'] = False
+        if r.random() < 0.04:
+            c['count_jobs'] = 0               # cues_outcomes(n_jobs=0) (C11.zero_jobs_raises)
+            c['clean'] = False
         out.append(c)
     return out
 
@@ -531,10 +560,13 @@ def run(rep, pool, driver, tier):
                     if impl.get('df_dtype_fallback'):
                         rep.count('dataframe_dtype_kept_object(pandas conversion altered the cells)')
         else:
-            rep.count('file_start_step:%s' % ('0,1' if (c['start'], c['step']) == (0, 1) else 'sliced'))
+            rep.count('file_start_step:%s' % ('0,1' if (c['start'], c['step']) == (0, 1) else 'step=0' if c['step'] == 0 else 'sliced'))
+            if c.get('count_jobs') == 0:
+                rep.count('file_count_jobs:0')
             rep.count('file_eol:%r' % c['eol'])
             for x in c['rows']:
-                rep.count('freq:%s' % (x[2] if x[2] in (None, 0, 1, 2, 3, 4, 5) else 'malformed'))
+                rep.count('freq:%s' % (x[2] if x[2] in (None, 0, 1, 2, 3, 4, 5) else
+                                       'int-literal' if x[2] in INT_LITERALS else 'malformed'))
         if any(not o for _, o in evs):
             rep.count('cases_with_outcomeless_event')
         chars = set(''.join(t for c_, o_ in evs for t in c_ + o_))
